@@ -17,6 +17,10 @@ func init() {
 }
 
 func runC10(r *Run, p *Prog) {
+	// S7: only complete frames are handed to the decoder
+	siblingRules(r, p, "C02", []string{"F2"}, "S7")
+	// S8: a connection whose peer has gone or stalls ends when its context is cancelled
+	siblingRules(r, p, "C17", []string{"D1", "D2", "D3"}, "S8")
 	ro := DiscoverRoles(p)
 	T, cg := ro.T, ro.CG
 	if len(ro.ConnLoop) == 0 || ro.Handle == nil {
